@@ -3,6 +3,7 @@ package main
 import (
 	"fmt"
 	"go/token"
+	"go/types"
 	"sort"
 	"strings"
 
@@ -17,7 +18,7 @@ func init() {
 			"Not decided: page-level equality of a reopened handle with the live one and torn writes inside one Flush (value/crash clauses).",
 		Run: func(w *World, r *Report) {
 			rulesC05Lib(w, r)
-			ruleC05R7(w, r, "C05.R7")
+			ruleC05R7(w, r, "C05.R7", 4, nil)
 			ruleC05R8(w, r)
 		},
 	})
@@ -500,11 +501,11 @@ type mutSite struct {
 // passed as parameter i? Memoised. Returns parameter indices.
 type syncAnalysis struct {
 	unsynced map[*ssa.Function]bool
-	w       *World
-	memo    map[*ssa.Function]map[int]bool
-	inProg  map[*ssa.Function]bool
-	syncF   *ssa.Function
-	createF *ssa.Function
+	w        *World
+	memo     map[*ssa.Function]map[int]bool
+	inProg   map[*ssa.Function]bool
+	syncF    *ssa.Function
+	createF  *ssa.Function
 }
 
 func (a *syncAnalysis) isSyncOn(in ssa.Instruction, root ssa.Value) bool {
@@ -744,8 +745,78 @@ func (a *syncAnalysis) bypass(f *ssa.Function, s mutSite) string {
 	return fmt.Sprintf("return at %s reachable without Sync via %s", a.w.instrPos(ret), a.w.blockPathString(p))
 }
 
-func ruleC05R7(w *World, r *Report, rule string) {
-	r.Rule(rule, "must-pass-through (checked): in every cmd function, from each call that mutates a handle (Update*, Create, or a wrapper that leaves its argument mutated) every path to a return that may report success passes Whisper.Sync on that handle, and Sync's error is surfaced", 4)
+// cmdReachableFrom: the cmd/main functions (and their literals) reachable in the call graph from the methods of the named command types.
+func cmdReachableFrom(w *World, typeNames ...string) map[*ssa.Function]bool {
+	seen := map[*ssa.Function]bool{}
+	var q []*ssa.Function
+	// owner: the receiver type name of the method a function (or literal, or bound-method wrapper) belongs to
+	owner := func(f *ssa.Function) string {
+		root := f
+		for root.Parent() != nil {
+			root = root.Parent()
+		}
+		var t types.Type
+		if root.Signature.Recv() != nil {
+			t = root.Signature.Recv().Type()
+		} else if len(root.FreeVars) == 1 && strings.HasSuffix(root.Name(), "$bound") {
+			t = root.FreeVars[0].Type()
+		} else {
+			return ""
+		}
+		if p, ok := t.(*types.Pointer); ok {
+			t = p.Elem()
+		}
+		if n, ok := t.(*types.Named); ok {
+			return n.Obj().Name()
+		}
+		return ""
+	}
+	mine := func(tn string) bool {
+		for _, x := range typeNames {
+			if x == tn {
+				return true
+			}
+		}
+		return false
+	}
+	for _, f := range cmdFuncs(w) {
+		if mine(owner(f)) && !seen[f] {
+			seen[f] = true
+			q = append(q, f)
+		}
+	}
+	for len(q) > 0 {
+		f := q[0]
+		q = q[1:]
+		for _, e := range w.callees(f) {
+			g := e.Callee.Func
+			// the call graph resolves the callback of shared helpers (withTextOutWriter) to every command's
+			// body: code owned by another command is not this command's
+			if o := owner(g); strings.HasSuffix(o, "Command") && !mine(o) {
+				continue
+			}
+			if p := pkgOf(g); (p == w.Cmd || p == w.Main) && !seen[g] {
+				seen[g] = true
+				q = append(q, g)
+			}
+		}
+		for _, g := range f.AnonFuncs {
+			if !seen[g] {
+				seen[g] = true
+				q = append(q, g)
+			}
+		}
+	}
+	return seen
+}
+
+// ruleC05R7: scope (nil = every cmd function) restricts the rule to the functions that serve the property's command.
+func ruleC05R7(w *World, r *Report, rule string, floor int, scope map[*ssa.Function]bool) {
+	what := "every cmd function"
+	if scope != nil {
+		what = "every cmd function reachable from the property's command(s)"
+	}
+	r.Rule(rule, "must-pass-through (checked): in "+what+", from each call that mutates a handle (Update*, Create, or a wrapper that leaves its argument mutated) every path to a return that may report success passes Whisper.Sync on that handle, and Sync's error is surfaced", floor)
 	syncF := fn(w.Lib, "Whisper.Sync")
 	createF := fn(w.Lib, "Create")
 	if syncF == nil || createF == nil {
@@ -756,6 +827,9 @@ func ruleC05R7(w *World, r *Report, rule string) {
 	fs := cmdFuncs(w)
 	sort.Slice(fs, func(i, j int) bool { return funcName(fs[i]) < funcName(fs[j]) })
 	for _, f := range fs {
+		if scope != nil && !scope[f] {
+			continue
+		}
 		for _, s := range a.sites(f) {
 			key := fmt.Sprintf("%s:%s", funcName(f), s.what)
 			// a parameter handle: obligation moves to the callers (pending)
@@ -906,7 +980,7 @@ func ruleC05R8(w *World, r *Report) {
 			}
 		}
 	}
-		// R8b: after a call that syncs (directly or through a wrapper) a handle
+	// R8b: after a call that syncs (directly or through a wrapper) a handle
 	// that was not created in this function, nothing fallible may follow: a
 	// failure return reachable after the Sync means the command can fail with
 	// the existing destination already rewritten on disk.
